@@ -598,6 +598,46 @@ def representation_independence(seed, n):
             for p in (p1, p2):
                 if os.path.exists(p):
                     os.remove(p)
+    # an edge replaced by two identical edges carrying half the information each, THROUGH a .g2o file (two textually identical lines)
+    for i in range(max(2, n // 4)):
+        kind = rng.choice(['SE2', 'SE3'])
+        g0, _ = oe.build_graph(rng, kind, nv=rng.randint(3, 6), landmarks=False, noise=0.02, pert=0.03, info_cross=False)
+        p1 = os.path.join(tempfile.gettempdir(), 'verif_c08_%d_e.g2o' % os.getpid())
+        p2 = os.path.join(tempfile.gettempdir(), 'verif_c08_%d_f.g2o' % os.getpid())
+        try:
+            g0.to_g2o(p1)
+            gs = copy.deepcopy(g0)
+            ks = rng.sample(range(len(gs._edges)), rng.randint(1, len(gs._edges)))
+            new_edges = []
+            for k_, e in enumerate(gs._edges):
+                if k_ in ks:
+                    e.information = e.information / 2.0
+                    new_edges += [e, copy.deepcopy(e)]
+                else:
+                    new_edges.append(e)
+            Graph(new_edges, gs._vertices).to_g2o(p2)
+            ga, gb = Graph.from_g2o(p1), Graph.from_g2o(p2)
+            evals += 1
+            ca, cb = ga.calc_chi2(), gb.calc_chi2()
+            if len(gb._edges) != len(new_edges) or not abs(ca - cb) <= 1e-9 * (1 + abs(ca)):
+                fails.append({'law': 'splitting %d edge(s) of a .g2o file into two identical half-information lines each: %d edges loaded instead of %d, chi2 %r vs %r'
+                                     % (len(ks), len(gb._edges), len(new_edges), cb, ca), 'seed': seed, 'case': i, 'kind': kind, 'edge': 'graph'})
+                continue
+            ga.optimize(tol=0.0, max_iter=2, verbose=False)
+            gb.optimize(tol=0.0, max_iter=2, verbose=False)
+            for va, vb in zip(ga._vertices, gb._vertices):
+                if not (poses_close(np.array(va.pose), np.array(vb.pose), 1e-6 * (1 + float(np.abs(np.array(va.pose)).max())))
+                        or (kind == 'SE2' and np.allclose(np.array(va.pose)[:2], np.array(vb.pose)[:2], atol=1e-6)
+                            and abs(math.remainder(float(va.pose[2] - vb.pose[2]), 2 * math.pi)) < 1e-6)):
+                    fails.append({'law': 'splitting edges of a .g2o file into identical half-information lines changes the optimization result', 'seed': seed, 'case': i,
+                                  'kind': kind, 'edge': 'graph'})
+                    break
+        except Exception as ex:  # noqa
+            fails.append({'law': 'g2o edge splitting raised %r' % (ex,), 'seed': seed, 'case': i, 'edge': 'graph'})
+        finally:
+            for p in (p1, p2):
+                if os.path.exists(p):
+                    os.remove(p)
     # relabelled ids (negative, sparse, beyond 2^53) THROUGH a .g2o file: same chi2, same optimization result
     for i in range(max(2, n // 3)):
         kind = rng.choice(['SE2', 'SE3'])
@@ -810,13 +850,18 @@ def purity(seed, n):
         g._vertices[0].fixed = True
         snap0 = snapshot(g)
         last = {}
-        qs = ['chi2', 'edge_err', 'edge_chi2', 'edge_jac', 'edge_cgh', 'equals', 'to_g2o', 'pose_ops', 'copy']
+        qs = ['chi2', 'edge_err', 'edge_chi2', 'edge_jac', 'edge_cgh', 'edge_cgh', 'graph_cgh', 'graph_cgh', 'equals', 'to_g2o', 'pose_ops', 'copy']
         ok = True
         for step in range(rng.randint(5, 50)):
             q = rng.choice(qs)
             try:
                 if q == 'chi2':
                     val = float(g.calc_chi2())
+                elif q == 'graph_cgh':
+                    # the graph-level evaluation that optimize() performs at every iteration (it accumulates the edges' contributions): no pose moves,
+                    # and what an edge returns afterwards for the same state must be what it returned before
+                    g._calc_chi2_gradient_hessian()
+                    val = (float(g._chi2), np.asarray(g._gradient).tobytes(), np.asarray(g._hessian.toarray()).tobytes())
                 elif q == 'to_g2o':
                     p = os.path.join(tempfile.gettempdir(), 'verif_c15_%d.g2o' % os.getpid())
                     try:
